@@ -7,5 +7,5 @@ import (
 )
 
 func TestSim(t *testing.T) {
-	simrun.Main(t, map[string]simrun.World{"C12": World("C12")})
+	simrun.Main(t, map[string]simrun.World{"C12": World("C12"), "C14": World("C14")})
 }
